@@ -1143,8 +1143,14 @@ class HandHistory(Iterable[State]):
                             )
 
                 if isinstance(operation, BoardDealing):
-                    actions += '/'
-                    board_cards += '/' + ''.join(map(repr, operation.cards))
+                    if index < 2 or not isinstance(
+                            state.operations[index - 2],
+                            BoardDealing,
+                    ):
+                        actions += '/'
+                        board_cards += '/'
+
+                    board_cards += ''.join(map(repr, operation.cards))
 
                 hole_cards = '|'.join(map(''.join, raw_hole_cards))
                 match_state = (
@@ -1228,8 +1234,14 @@ class HandHistory(Iterable[State]):
                                 card,
                             )
                 elif isinstance(operation, BoardDealing):
-                    actions += '/'
-                    board_cards += '/' + ''.join(map(repr, operation.cards))
+                    if index < 2 or not isinstance(
+                            state.operations[index - 2],
+                            BoardDealing,
+                    ):
+                        actions += '/'
+                        board_cards += '/'
+
+                    board_cards += ''.join(map(repr, operation.cards))
 
         hole_cards = '|'.join(map(''.join, raw_hole_cards))
         raw_payoffs = []
